@@ -13,6 +13,7 @@ pub(crate) fn parse_svg_text_element<'input>(
     parent: roxmltree::Node<'_, 'input>,
     parent_id: NodeId,
     style_sheet: &simplecss::StyleSheet,
+    depth: u32,
     doc: &mut Document<'input>,
 ) -> Result<(), Error> {
     debug_assert_eq!(parent.tag_name().name(), "text");
@@ -31,7 +32,7 @@ pub(crate) fn parse_svg_text_element<'input>(
         }
     };
 
-    parse_svg_text_element_impl(parent, parent_id, style_sheet, space, doc)?;
+    parse_svg_text_element_impl(parent, parent_id, style_sheet, space, depth, doc)?;
 
     trim_text_nodes(parent_id, space, doc);
     Ok(())
@@ -42,9 +43,15 @@ fn parse_svg_text_element_impl<'input>(
     parent_id: NodeId,
     style_sheet: &simplecss::StyleSheet,
     space: XmlSpace,
+    depth: u32,
     doc: &mut Document<'input>,
 ) -> Result<(), Error> {
     for node in parent.children() {
+        // The same nesting limit as for any other element.
+        if depth > 1024 {
+            return Err(Error::NodesLimitReached);
+        }
+
         if node.is_text() {
             let text = trim_text(node.text().unwrap(), space);
             doc.append(parent_id, NodeKind::Text(text));
@@ -93,7 +100,7 @@ fn parse_svg_text_element_impl<'input>(
                 }
             }
         } else {
-            parse_svg_text_element_impl(node, node_id, style_sheet, space, doc)?;
+            parse_svg_text_element_impl(node, node_id, style_sheet, space, depth + 1, doc)?;
         }
     }
 
